@@ -70,7 +70,7 @@ _Bool D[NEV][NEV];                     /* ghost: uninterpreted dependency relati
 /* hand-made modularity for the plain lemma harness: push_transition sees max_emplace_left through the specification
  * that harness `max_emplace_left` proves for ALL pairs of distinct full-size clock vectors (stub below). Without it
  * the 32-slot std::transform is unrolled once per (actor, event) pair and per pushed event: 630k SSA steps.        */
-#define VF_OVERRIDE_max_emplace_left
+#define VF_OVERRIDE_ClockVector__max_emplace_left
 #endif
 #include "gen.c"
 
@@ -86,7 +86,7 @@ static int t_index(struct Transition* t)
   __CPROVER_assert(__CPROVER_same_object(t, g_t), "dispatch_depends only ever sees transitions of the execution");
   return (int)((struct ActorCreateTransition*)t - g_t);
 }
-void max_emplace_left(struct ClockVector* cv1, struct ClockVector* cv2)
+void ClockVector__max_emplace_left(struct ClockVector* cv1, struct ClockVector* cv2)
 {
   /* precondition of the proved specification */
   __CPROVER_assert(cv1->contents_.n == NT && cv2->contents_.n == NT && cv1->contents_.h == 0 && cv2->contents_.h == 0 &&
@@ -229,7 +229,7 @@ void harness(void)
 {
   setup_cvs();
   unsigned a0 = g_a[gk].value_, b0 = g_b[gk].value_;
-  struct ClockVector r = max(&g_cv1, &g_cv2);
+  struct ClockVector r = ClockVector__max(&g_cv1, &g_cv2);
   __CPROVER_assert(vf_exc == 0, "max raises nothing"); /*@ max_never_fails */
   __CPROVER_assert(r.contents_.n == NT, "result has max_threads slots"); /*@ max_result_full_size */
   struct Aid aid = {(unsigned char)gk};
@@ -241,7 +241,7 @@ void harness(void)
 }
 #endif
 #ifdef H_max_emplace_left
-/* max_emplace_left(cv1, cv2): every slot of cv1 becomes the maximum of the two slots, cv2 is not touched; for ANY two
+/* ClockVector__max_emplace_left(cv1, cv2): every slot of cv1 becomes the maximum of the two slots, cv2 is not touched; for ANY two
  * distinct full-size vectors (storage allocated here, contents symbolic) */
 void harness(void)
 {
@@ -252,7 +252,7 @@ void harness(void)
   g_cv1.contents_.d = A;
   g_cv2.contents_.d = B;
   unsigned a0 = A[gk].value_, b0 = B[gk].value_;
-  max_emplace_left(&g_cv1, &g_cv2);
+  ClockVector__max_emplace_left(&g_cv1, &g_cv2);
   __CPROVER_assert(vf_exc == 0, "max_emplace_left raises nothing"); /*@ emplace_left_never_fails */
   __CPROVER_assert(WF_CV(&g_cv1, A) && WF_CV(&g_cv2, B), "vectors keep their storage and size"); /*@ emplace_left_keeps_shape */
   __CPROVER_assert(A[gk].value_ == CLK_MAX(a0, b0), "pointwise maximum"); /*@ emplace_left_is_pointwise_max */
